@@ -452,6 +452,11 @@ func loadChunk(l *Lexer, recordLen uint64) error {
 
 		_, err := io.ReadFull(l.reader, l.uncompressedChunk[:uncompressedSize])
 		if err != nil {
+			// a decompressor that ends before delivering a single byte makes
+			// ReadFull return io.EOF, which callers take for the end of the file
+			if errors.Is(err, io.EOF) {
+				err = io.ErrUnexpectedEOF
+			}
 			return fmt.Errorf("failed to decompress chunk: %w", err)
 		}
 
